@@ -801,7 +801,7 @@ _SHAPES = ['add_no_params', 'add_params_number', 'add_params_array', 'add_path_n
 _scn_shape = dict(_scn_guard, harness="harness/scn_shapes.c")
 for _i, _nm in enumerate(_SHAPES):
     O(id="C06.shape_" + _nm, props=["C06", "C02", "C04"], entry="harness_shape", defines=["SHAPE=%d" % _i],
-      reach=(["closed"] if _i in {34, 35, 37, 39, 40, 41} else ["kept"]) + (["tolerated"] if _i in (6, 7) else ["refused"]) + ([] if _i in {6, 7, 32, 33, 34, 35, 36, 37, 38, 39, 40, 41, 31} else ["with_id"]),
+      reach=(["tolerated"] if _i in (6, 7) else ["refused"]) + ([] if _i in {6, 7, 32, 33, 34, 35, 36, 37, 38, 39, 40, 41, 31} else ["with_id"]),
       functions=["parse_message", "parse_json_rpc", "parse_json_array", "handle_method", "add_element_to_peer", "change_state", "remove_element_from_peer", "set_or_call", "add_fetch_to_peer",
                  "remove_fetch_from_peer", "get_elements", "config_peer", "handle_authentication", "handle_change_password", "handle_routing_response", "create_error_response*"],
       symbolic="one number inside the hostile member", assumes=["set-up (O add 's', B fetch-all) succeeds"],
